@@ -158,7 +158,8 @@ Init == /\ reg = TLCEval(EmptyReg)      \* TLCEval: store explicit (not lazily r
         /\ hist = <<>>
         /\ last = [res |-> "none", sigs |-> {}, used |-> {}]
 
-Do(op) == LET e == Eff(reg, op, DEVS) IN
+\* (`\E e \in {..}` rather than LET: TLC then evaluates Eff once per step, not once per use)
+Do(op) == \E e \in {Eff(reg, op, DEVS)} :
           /\ reg' = TLCEval(e.reg)
           /\ mirror' = TLCEval(MirrorStep(mirror, e.reg, e.sigs))
           /\ hist' = Append(hist, op)
